@@ -156,6 +156,11 @@ class Effects:
                     out.append(Store(fn, node, "unknown", "?", ".".join(chain), how))
                 return
             kind, rname = self.root_kind(fn, rn.id)
+            if kind != "tl":
+                # a threading.local() held in an attribute of an object (`self._local.stack`)
+                tl = self.r.tl_of_expr(fn, target_expr)
+                if tl is not None and tl[1]:
+                    kind, rname = "tl", tl[0][1]
             out.append(Store(fn, node, kind, rname, ".".join(chain), how))
 
         gl = fn.declared_global()
@@ -169,6 +174,9 @@ class Effects:
             elif isinstance(n, ast.Call):
                 f = n.func
                 if isinstance(f, ast.Attribute) and f.attr in MUTATORS:
+                    t = self.m.resolve_call(fn, n)
+                    if t.kind == "func":
+                        continue  # a method of an internal class that merely shares a mutator's name: its own stores are analysed
                     add(n, f.value, "call:" + f.attr)
                 elif isinstance(f, ast.Name) and f.id in ("setattr", "delattr") and n.args:
                     add(n, n.args[0], f.id)
